@@ -121,7 +121,7 @@ fn core_word_div(xs: &mut State) -> Xresult {
             if *b == 0 {
                 Err(Xerr::DivisionByZero)
             } else {
-                let c = Cell::from(a / *b);
+                let c = Cell::from(a.wrapping_div(*b));
                 xs.push_data(c)
             }
         }
@@ -153,7 +153,7 @@ fn core_word_neg(xs: &mut State) -> Xresult {
 fn core_word_abs(xs: &mut State) -> Xresult {
     let a = xs.pop_data()?;
     match a.value() {
-        Cell::Int(a) => xs.push_data(Cell::Int(a.abs())),
+        Cell::Int(a) => xs.push_data(Cell::Int(a.wrapping_abs())),
         Cell::Real(a) => xs.push_data(Cell::Real(a.abs())),
         _ => Err(num_type_error(a)),
     }
